@@ -80,6 +80,13 @@ def bn256G2Base : String :=
 def bn254G2Base : String :=
   "198e9393920d483a7260bfb731fb5d25f1aa493335a9e71297e485b7aef312c21800deef121f1e76426a00665e5c4479674322d4f75edadd46debd5cd992f6ed090689d0585ff075ec9e99ad690c3395bc4b313370b38ef355acdadcd122975b12c85ea5db8c6deb4aab71808dcb408fe3d1e7690c43d37b4ce6cc0166fa7daa"
 
+/-- Residue (Schnorr) group of squares modulo a prime `P`, order `Q`, generator `G` (group/p256/residue.go):
+    the group operation is multiplication mod `P`, inverses by Fermat, scalar multiplication is `powMod`. -/
+def qrOps (P Q G : Nat) : GroupOps Nat :=
+  { q := Q, le := false, zero := 1 % P, base := G % P,
+    add := fun a b => a * b % P, neg := fun a => invMod a P, smul := fun k a => powMod a k P,
+    enc := Residue.enc P, dec := Residue.dec P Q }
+
 structure PState (α : Type) where
   pts : List (Option α)
   scs : List (Option Nat)
@@ -164,6 +171,12 @@ def handleGrp : List String → String
       runGrp (wOps BLS12381.curve BLS12381.r BLS12381.base BLS12381.enc decBlsG1) prog
   | ["bn256g2", prog] => runGrp (g2Ops BN256.twist BN256.n BN256.decG2 bn256G2Base) prog
   | ["bn254g2", prog] => runGrp (g2Ops BN254.twist BN254.n BN254.decG2 bn254G2Base) prog
+  | [model, prog] =>
+    match model.splitOn ":" with
+    | ["qr", ps, qs, gs] => match hexN ps, hexN qs, hexN gs with
+      | some P, some Q, some G => runGrp (qrOps P Q G) prog
+      | _, _, _ => badOp
+    | _ => badOp
   | _ => badOp
 
 end Kyber.Drive
